@@ -123,7 +123,14 @@ def parse(path):
                 elif k == 'derives':
                     v = [] if v == '-' else v.split(',')
                 item[k] = v
-            u.items.append(item)
+            # `override=yes`: a unit that needs more fields of a shared data type than the shared include keeps
+            # re-declares the item; the later declaration replaces the earlier one in place (same extraction, other
+            # @keep_fields)
+            prev = [i for i, o in enumerate(u.items) if o['path'] == item['path']]
+            if item.pop('override', None) == 'yes' and prev:
+                u.items[prev[0]] = item
+            else:
+                u.items.append(item)
             clos = None
         elif item is None:
             raise ValueError('%s: @%s before any @item' % (path, d))
